@@ -28,6 +28,8 @@ def src(rel):
     # strip comments
     s = re.sub(r"/\*.*?\*/", " ", s, flags=re.S)
     s = re.sub(r"//[^\n]*", " ", s)
+    # the guarded verification hooks are not part of the library's behaviour
+    s = re.sub(r"FS_VERIF_POINT\([^;]*\);", " ", s)
     return s
 
 
